@@ -190,7 +190,7 @@ TakeConfirm(n) ==
 TakeErr(n) ==
   /\ TwoWay /\ pc = "waiting" /\ wire[n] # <<>> /\ Head(wire[n]).err
   /\ wire' = [wire EXCEPT ![n] = Tail(@)]
-  /\ errs' = Append(errs, n)
+  /\ errs' = IF n \in {errs[i] : i \in DOMAIN errs} THEN errs ELSE Append(errs, n)   \* a failing node counts once
   /\ IF Exhausted(errs', replies)
        THEN FinishErr("incomplete", errs', replies, qfLog)
        ELSE UNCHANGED <<pc, out, corr>>
@@ -293,7 +293,7 @@ QuiescentOK ==
 SkippedNotCounted == pc # "init" /\ pc # "issuing" =>
                        /\ sent = {n \in Node : sc.pn[n] # "skip"}
                        /\ expected = Cardinality(sent)
-ErrorsNameNodesOnce == ~Stream => \A i, j \in DOMAIN errs : i # j => errs[i] # errs[j]
+ErrorsNameNodesOnce == \A i, j \in DOMAIN errs : i # j => errs[i] # errs[j]
 FailedNotReplied    == ~Stream => ErrNodes \cap DOMAIN replies = {}
 OneWayNoHandlerWait == (OneWay /\ sc.nsw) => pc # "waiting"
 
